@@ -1,4 +1,4 @@
-import CardVerif.Model.Float53
+import CardModel.Model.Float53
 import Mathlib.Tactic.Linarith
 import Mathlib.Tactic.Ring
 import Mathlib.Tactic.Positivity
